@@ -6,129 +6,129 @@ namespace ImathVerif.Gen
 open ImathVerif
 
 /-- extracted from the C++ template at T = Sym; 2 path(s) -/
-def C07.V2.normalize {α : Type} [Add α] [Mul α] [Div α] [Neg α] [LT α] [DecidableLT α] [DecidableEq α] [OfNat α 0] [OfNat α 2] (tmin : α) (sqrt : α → α) (a : V2 α) : (V2 α) :=
-  let t3 := (V2.length tmin sqrt ⟨a.x, a.y⟩)
+def C07.V2.normalize {α : Type} [Add α] [Mul α] [Div α] [Neg α] [LT α] [DecidableLT α] [DecidableEq α] [OfNat α 0] [OfNat α 2] (tmin : α) (tmax : α) (sqrt : α → α) (a : V2 α) : (V2 α) :=
+  let t3 := (V2.length tmin tmax sqrt ⟨a.x, a.y⟩)
   if t3 = (0 : α) then
     ⟨a.x, a.y⟩
   else
     ⟨(a.x / t3), (a.y / t3)⟩
 
 /-- extracted from the C++ template at T = Sym; 2 path(s) -/
-def C07.V2.normalizeExc {α : Type} [Add α] [Mul α] [Div α] [Neg α] [LT α] [DecidableLT α] [DecidableEq α] [OfNat α 0] [OfNat α 2] (tmin : α) (sqrt : α → α) (a : V2 α) : Except Exc (V2 α) :=
-  let t3 := (V2.length tmin sqrt ⟨a.x, a.y⟩)
+def C07.V2.normalizeExc {α : Type} [Add α] [Mul α] [Div α] [Neg α] [LT α] [DecidableLT α] [DecidableEq α] [OfNat α 0] [OfNat α 2] (tmin : α) (tmax : α) (sqrt : α → α) (a : V2 α) : Except Exc (V2 α) :=
+  let t3 := (V2.length tmin tmax sqrt ⟨a.x, a.y⟩)
   if t3 = (0 : α) then
     .error Exc.domainError
   else
     .ok (⟨(a.x / t3), (a.y / t3)⟩)
 
 /-- extracted from the C++ template at T = Sym; 1 path(s) -/
-def C07.V2.normalizeNonNull {α : Type} [Add α] [Mul α] [Div α] [Neg α] [LT α] [DecidableLT α] [DecidableEq α] [OfNat α 0] [OfNat α 2] (tmin : α) (sqrt : α → α) (a : V2 α) : (V2 α) :=
-  let t3 := (V2.length tmin sqrt ⟨a.x, a.y⟩)
+def C07.V2.normalizeNonNull {α : Type} [Add α] [Mul α] [Div α] [Neg α] [LT α] [DecidableLT α] [DecidableEq α] [OfNat α 0] [OfNat α 2] (tmin : α) (tmax : α) (sqrt : α → α) (a : V2 α) : (V2 α) :=
+  let t3 := (V2.length tmin tmax sqrt ⟨a.x, a.y⟩)
   ⟨(a.x / t3), (a.y / t3)⟩
 
 /-- extracted from the C++ template at T = Sym; 2 path(s) -/
-def C07.V2.normalized {α : Type} [Add α] [Mul α] [Div α] [Neg α] [LT α] [DecidableLT α] [DecidableEq α] [OfNat α 0] [OfNat α 2] (tmin : α) (sqrt : α → α) (a : V2 α) : (V2 α) :=
-  let t3 := (V2.length tmin sqrt ⟨a.x, a.y⟩)
+def C07.V2.normalized {α : Type} [Add α] [Mul α] [Div α] [Neg α] [LT α] [DecidableLT α] [DecidableEq α] [OfNat α 0] [OfNat α 2] (tmin : α) (tmax : α) (sqrt : α → α) (a : V2 α) : (V2 α) :=
+  let t3 := (V2.length tmin tmax sqrt ⟨a.x, a.y⟩)
   if t3 = (0 : α) then
     ⟨(0 : α), (0 : α)⟩
   else
     ⟨(a.x / t3), (a.y / t3)⟩
 
 /-- extracted from the C++ template at T = Sym; 2 path(s) -/
-def C07.V2.normalizedExc {α : Type} [Add α] [Mul α] [Div α] [Neg α] [LT α] [DecidableLT α] [DecidableEq α] [OfNat α 0] [OfNat α 2] (tmin : α) (sqrt : α → α) (a : V2 α) : Except Exc (V2 α) :=
-  let t3 := (V2.length tmin sqrt ⟨a.x, a.y⟩)
+def C07.V2.normalizedExc {α : Type} [Add α] [Mul α] [Div α] [Neg α] [LT α] [DecidableLT α] [DecidableEq α] [OfNat α 0] [OfNat α 2] (tmin : α) (tmax : α) (sqrt : α → α) (a : V2 α) : Except Exc (V2 α) :=
+  let t3 := (V2.length tmin tmax sqrt ⟨a.x, a.y⟩)
   if t3 = (0 : α) then
     .error Exc.domainError
   else
     .ok (⟨(a.x / t3), (a.y / t3)⟩)
 
 /-- extracted from the C++ template at T = Sym; 1 path(s) -/
-def C07.V2.normalizedNonNull {α : Type} [Add α] [Mul α] [Div α] [Neg α] [LT α] [DecidableLT α] [DecidableEq α] [OfNat α 0] [OfNat α 2] (tmin : α) (sqrt : α → α) (a : V2 α) : (V2 α) :=
-  let t3 := (V2.length tmin sqrt ⟨a.x, a.y⟩)
+def C07.V2.normalizedNonNull {α : Type} [Add α] [Mul α] [Div α] [Neg α] [LT α] [DecidableLT α] [DecidableEq α] [OfNat α 0] [OfNat α 2] (tmin : α) (tmax : α) (sqrt : α → α) (a : V2 α) : (V2 α) :=
+  let t3 := (V2.length tmin tmax sqrt ⟨a.x, a.y⟩)
   ⟨(a.x / t3), (a.y / t3)⟩
 
 /-- extracted from the C++ template at T = Sym; 2 path(s) -/
-def C07.V3.normalize {α : Type} [Add α] [Mul α] [Div α] [Neg α] [LT α] [LE α] [DecidableLT α] [DecidableLE α] [DecidableEq α] [OfNat α 0] [OfNat α 2] (tmin : α) (sqrt : α → α) (a : V3 α) : (V3 α) :=
-  let t7 := (V3.length tmin sqrt ⟨a.x, a.y, a.z⟩)
+def C07.V3.normalize {α : Type} [Add α] [Mul α] [Div α] [Neg α] [LT α] [LE α] [DecidableLT α] [DecidableLE α] [DecidableEq α] [OfNat α 0] [OfNat α 2] (tmin : α) (tmax : α) (sqrt : α → α) (a : V3 α) : (V3 α) :=
+  let t7 := (V3.length tmin tmax sqrt ⟨a.x, a.y, a.z⟩)
   if t7 = (0 : α) then
     ⟨a.x, a.y, a.z⟩
   else
     ⟨(a.x / t7), (a.y / t7), (a.z / t7)⟩
 
 /-- extracted from the C++ template at T = Sym; 2 path(s) -/
-def C07.V3.normalizeExc {α : Type} [Add α] [Mul α] [Div α] [Neg α] [LT α] [LE α] [DecidableLT α] [DecidableLE α] [DecidableEq α] [OfNat α 0] [OfNat α 2] (tmin : α) (sqrt : α → α) (a : V3 α) : Except Exc (V3 α) :=
-  let t7 := (V3.length tmin sqrt ⟨a.x, a.y, a.z⟩)
+def C07.V3.normalizeExc {α : Type} [Add α] [Mul α] [Div α] [Neg α] [LT α] [LE α] [DecidableLT α] [DecidableLE α] [DecidableEq α] [OfNat α 0] [OfNat α 2] (tmin : α) (tmax : α) (sqrt : α → α) (a : V3 α) : Except Exc (V3 α) :=
+  let t7 := (V3.length tmin tmax sqrt ⟨a.x, a.y, a.z⟩)
   if t7 = (0 : α) then
     .error Exc.domainError
   else
     .ok (⟨(a.x / t7), (a.y / t7), (a.z / t7)⟩)
 
 /-- extracted from the C++ template at T = Sym; 1 path(s) -/
-def C07.V3.normalizeNonNull {α : Type} [Add α] [Mul α] [Div α] [Neg α] [LT α] [LE α] [DecidableLT α] [DecidableLE α] [DecidableEq α] [OfNat α 0] [OfNat α 2] (tmin : α) (sqrt : α → α) (a : V3 α) : (V3 α) :=
-  let t7 := (V3.length tmin sqrt ⟨a.x, a.y, a.z⟩)
+def C07.V3.normalizeNonNull {α : Type} [Add α] [Mul α] [Div α] [Neg α] [LT α] [LE α] [DecidableLT α] [DecidableLE α] [DecidableEq α] [OfNat α 0] [OfNat α 2] (tmin : α) (tmax : α) (sqrt : α → α) (a : V3 α) : (V3 α) :=
+  let t7 := (V3.length tmin tmax sqrt ⟨a.x, a.y, a.z⟩)
   ⟨(a.x / t7), (a.y / t7), (a.z / t7)⟩
 
 /-- extracted from the C++ template at T = Sym; 2 path(s) -/
-def C07.V3.normalized {α : Type} [Add α] [Mul α] [Div α] [Neg α] [LT α] [LE α] [DecidableLT α] [DecidableLE α] [DecidableEq α] [OfNat α 0] [OfNat α 2] (tmin : α) (sqrt : α → α) (a : V3 α) : (V3 α) :=
-  let t7 := (V3.length tmin sqrt ⟨a.x, a.y, a.z⟩)
+def C07.V3.normalized {α : Type} [Add α] [Mul α] [Div α] [Neg α] [LT α] [LE α] [DecidableLT α] [DecidableLE α] [DecidableEq α] [OfNat α 0] [OfNat α 2] (tmin : α) (tmax : α) (sqrt : α → α) (a : V3 α) : (V3 α) :=
+  let t7 := (V3.length tmin tmax sqrt ⟨a.x, a.y, a.z⟩)
   if t7 = (0 : α) then
     ⟨(0 : α), (0 : α), (0 : α)⟩
   else
     ⟨(a.x / t7), (a.y / t7), (a.z / t7)⟩
 
 /-- extracted from the C++ template at T = Sym; 2 path(s) -/
-def C07.V3.normalizedExc {α : Type} [Add α] [Mul α] [Div α] [Neg α] [LT α] [LE α] [DecidableLT α] [DecidableLE α] [DecidableEq α] [OfNat α 0] [OfNat α 2] (tmin : α) (sqrt : α → α) (a : V3 α) : Except Exc (V3 α) :=
-  let t7 := (V3.length tmin sqrt ⟨a.x, a.y, a.z⟩)
+def C07.V3.normalizedExc {α : Type} [Add α] [Mul α] [Div α] [Neg α] [LT α] [LE α] [DecidableLT α] [DecidableLE α] [DecidableEq α] [OfNat α 0] [OfNat α 2] (tmin : α) (tmax : α) (sqrt : α → α) (a : V3 α) : Except Exc (V3 α) :=
+  let t7 := (V3.length tmin tmax sqrt ⟨a.x, a.y, a.z⟩)
   if t7 = (0 : α) then
     .error Exc.domainError
   else
     .ok (⟨(a.x / t7), (a.y / t7), (a.z / t7)⟩)
 
 /-- extracted from the C++ template at T = Sym; 1 path(s) -/
-def C07.V3.normalizedNonNull {α : Type} [Add α] [Mul α] [Div α] [Neg α] [LT α] [LE α] [DecidableLT α] [DecidableLE α] [DecidableEq α] [OfNat α 0] [OfNat α 2] (tmin : α) (sqrt : α → α) (a : V3 α) : (V3 α) :=
-  let t7 := (V3.length tmin sqrt ⟨a.x, a.y, a.z⟩)
+def C07.V3.normalizedNonNull {α : Type} [Add α] [Mul α] [Div α] [Neg α] [LT α] [LE α] [DecidableLT α] [DecidableLE α] [DecidableEq α] [OfNat α 0] [OfNat α 2] (tmin : α) (tmax : α) (sqrt : α → α) (a : V3 α) : (V3 α) :=
+  let t7 := (V3.length tmin tmax sqrt ⟨a.x, a.y, a.z⟩)
   ⟨(a.x / t7), (a.y / t7), (a.z / t7)⟩
 
 /-- extracted from the C++ template at T = Sym; 2 path(s) -/
-def C07.V4.normalize {α : Type} [Add α] [Mul α] [Div α] [Neg α] [LT α] [LE α] [DecidableLT α] [DecidableLE α] [DecidableEq α] [OfNat α 0] [OfNat α 2] (tmin : α) (sqrt : α → α) (a : V4 α) : (V4 α) :=
-  let t12 := (V4.length tmin sqrt ⟨a.x, a.y, a.z, a.w⟩)
+def C07.V4.normalize {α : Type} [Add α] [Mul α] [Div α] [Neg α] [LT α] [LE α] [DecidableLT α] [DecidableLE α] [DecidableEq α] [OfNat α 0] [OfNat α 2] (tmin : α) (tmax : α) (sqrt : α → α) (a : V4 α) : (V4 α) :=
+  let t12 := (V4.length tmin tmax sqrt ⟨a.x, a.y, a.z, a.w⟩)
   if t12 = (0 : α) then
     ⟨a.x, a.y, a.z, a.w⟩
   else
     ⟨(a.x / t12), (a.y / t12), (a.z / t12), (a.w / t12)⟩
 
 /-- extracted from the C++ template at T = Sym; 2 path(s) -/
-def C07.V4.normalizeExc {α : Type} [Add α] [Mul α] [Div α] [Neg α] [LT α] [LE α] [DecidableLT α] [DecidableLE α] [DecidableEq α] [OfNat α 0] [OfNat α 2] (tmin : α) (sqrt : α → α) (a : V4 α) : Except Exc (V4 α) :=
-  let t12 := (V4.length tmin sqrt ⟨a.x, a.y, a.z, a.w⟩)
+def C07.V4.normalizeExc {α : Type} [Add α] [Mul α] [Div α] [Neg α] [LT α] [LE α] [DecidableLT α] [DecidableLE α] [DecidableEq α] [OfNat α 0] [OfNat α 2] (tmin : α) (tmax : α) (sqrt : α → α) (a : V4 α) : Except Exc (V4 α) :=
+  let t12 := (V4.length tmin tmax sqrt ⟨a.x, a.y, a.z, a.w⟩)
   if t12 = (0 : α) then
     .error Exc.domainError
   else
     .ok (⟨(a.x / t12), (a.y / t12), (a.z / t12), (a.w / t12)⟩)
 
 /-- extracted from the C++ template at T = Sym; 1 path(s) -/
-def C07.V4.normalizeNonNull {α : Type} [Add α] [Mul α] [Div α] [Neg α] [LT α] [LE α] [DecidableLT α] [DecidableLE α] [DecidableEq α] [OfNat α 0] [OfNat α 2] (tmin : α) (sqrt : α → α) (a : V4 α) : (V4 α) :=
-  let t12 := (V4.length tmin sqrt ⟨a.x, a.y, a.z, a.w⟩)
+def C07.V4.normalizeNonNull {α : Type} [Add α] [Mul α] [Div α] [Neg α] [LT α] [LE α] [DecidableLT α] [DecidableLE α] [DecidableEq α] [OfNat α 0] [OfNat α 2] (tmin : α) (tmax : α) (sqrt : α → α) (a : V4 α) : (V4 α) :=
+  let t12 := (V4.length tmin tmax sqrt ⟨a.x, a.y, a.z, a.w⟩)
   ⟨(a.x / t12), (a.y / t12), (a.z / t12), (a.w / t12)⟩
 
 /-- extracted from the C++ template at T = Sym; 2 path(s) -/
-def C07.V4.normalized {α : Type} [Add α] [Mul α] [Div α] [Neg α] [LT α] [LE α] [DecidableLT α] [DecidableLE α] [DecidableEq α] [OfNat α 0] [OfNat α 2] (tmin : α) (sqrt : α → α) (a : V4 α) : (V4 α) :=
-  let t12 := (V4.length tmin sqrt ⟨a.x, a.y, a.z, a.w⟩)
+def C07.V4.normalized {α : Type} [Add α] [Mul α] [Div α] [Neg α] [LT α] [LE α] [DecidableLT α] [DecidableLE α] [DecidableEq α] [OfNat α 0] [OfNat α 2] (tmin : α) (tmax : α) (sqrt : α → α) (a : V4 α) : (V4 α) :=
+  let t12 := (V4.length tmin tmax sqrt ⟨a.x, a.y, a.z, a.w⟩)
   if t12 = (0 : α) then
     ⟨(0 : α), (0 : α), (0 : α), (0 : α)⟩
   else
     ⟨(a.x / t12), (a.y / t12), (a.z / t12), (a.w / t12)⟩
 
 /-- extracted from the C++ template at T = Sym; 2 path(s) -/
-def C07.V4.normalizedExc {α : Type} [Add α] [Mul α] [Div α] [Neg α] [LT α] [LE α] [DecidableLT α] [DecidableLE α] [DecidableEq α] [OfNat α 0] [OfNat α 2] (tmin : α) (sqrt : α → α) (a : V4 α) : Except Exc (V4 α) :=
-  let t12 := (V4.length tmin sqrt ⟨a.x, a.y, a.z, a.w⟩)
+def C07.V4.normalizedExc {α : Type} [Add α] [Mul α] [Div α] [Neg α] [LT α] [LE α] [DecidableLT α] [DecidableLE α] [DecidableEq α] [OfNat α 0] [OfNat α 2] (tmin : α) (tmax : α) (sqrt : α → α) (a : V4 α) : Except Exc (V4 α) :=
+  let t12 := (V4.length tmin tmax sqrt ⟨a.x, a.y, a.z, a.w⟩)
   if t12 = (0 : α) then
     .error Exc.domainError
   else
     .ok (⟨(a.x / t12), (a.y / t12), (a.z / t12), (a.w / t12)⟩)
 
 /-- extracted from the C++ template at T = Sym; 1 path(s) -/
-def C07.V4.normalizedNonNull {α : Type} [Add α] [Mul α] [Div α] [Neg α] [LT α] [LE α] [DecidableLT α] [DecidableLE α] [DecidableEq α] [OfNat α 0] [OfNat α 2] (tmin : α) (sqrt : α → α) (a : V4 α) : (V4 α) :=
-  let t12 := (V4.length tmin sqrt ⟨a.x, a.y, a.z, a.w⟩)
+def C07.V4.normalizedNonNull {α : Type} [Add α] [Mul α] [Div α] [Neg α] [LT α] [LE α] [DecidableLT α] [DecidableLE α] [DecidableEq α] [OfNat α 0] [OfNat α 2] (tmin : α) (tmax : α) (sqrt : α → α) (a : V4 α) : (V4 α) :=
+  let t12 := (V4.length tmin tmax sqrt ⟨a.x, a.y, a.z, a.w⟩)
   ⟨(a.x / t12), (a.y / t12), (a.z / t12), (a.w / t12)⟩
 
 /-- extracted from the C++ template at T = Sym; 1 path(s) -/
